@@ -13,7 +13,7 @@ if [ "${MUT_BASELINE:-0}" = "1" ]; then
 fi
 rc_all=0
 for P in "$@"; do
-  out=$(VERIF_REPO="$SCR/repo" VERIF_SCRATCH="$SCR" VERIF_RUNS="${MUT_RUNS:-40000}" ./check "$P" quick 2>&1)
+  out=$(VERIF_REPO="$SCR/repo" VERIF_SCRATCH="$SCR" VERIF_RUNS="${MUT_RUNS:-${VERIF_RUNS:-40000}}" ./check "$P" quick 2>&1)
   rc=$?
   echo "[$P rc=$rc] $(echo "$out" | grep -E "VIOLATION|HARNESS|KNOWN" | head -2 | tr '\n' ' ')"
   [ $rc -eq 1 ] || rc_all=1
